@@ -373,6 +373,8 @@ theorem mem_getD_bind {β : Type} {k : DecState → LogM β} {ls : LState} {b : 
     (he : e ∈ resLog ((getD >>= k) ls b)) : e ∈ resLog (k ls.st ls b) := he
 theorem mem_modD_bind {β : Type} {g : DecState → DecState} {k : Unit → LogM β} {ls : LState} {b : Bool} {e : LEntry}
     (he : e ∈ resLog ((modD g >>= k) ls b)) : e ∈ resLog (k () { ls with st := g ls.st } b) := he
+theorem mem_pure_bind {α β : Type} {a : α} {k : α → LogM β} {ls : LState} {b : Bool} {e : LEntry}
+    (he : e ∈ resLog (((pure a : LogM α) >>= k) ls b)) : e ∈ resLog (k a ls b) := he
 theorem mem_odxassert_bind {β : Type} {c : Bool} {k : Unit → LogM β} {ls : LState} {e : LEntry}
     (he : e ∈ resLog ((odxassert c >>= k) ls true)) : (c = true ∧ e ∈ resLog (k () ls true)) ∨ e ∈ ls.log := by
   cases c
@@ -446,5 +448,76 @@ theorem cov_dop_endMarkerField (f : Nat) (tv : IVal) (tdop item : Dop)
     exact (ih _ e h2).imp id fun h => h.lift rfl rfl fun dr bl hr =>
       .endMarkerField f tv tdop item ls.st dr bl (of_decide_eq_true hcb) hr
   · exact .inl h1
+
+theorem cov_dop_dynLenField (f : Nat) (off cbp cbit : Nat) (cdop item : Dop) (ihc : Cov f (.dop cdop) (decodeDopL f cdop))
+    (ihn : ∀ n, Cov f (.nItems item n) (decodeNItemsL item f n)) :
+    Cov (f + 1) (.dop (.dynLenField off cbp cbit cdop item)) (decodeDopL (f + 1) (.dynLenField off cbp cbit cdop item)) := by
+  intro ls e he
+  unfold decodeDopL at he
+  rcases mem_odxassert_bind (mem_getD_bind he) with ⟨hcb', h1⟩ | h1
+  · have hcb : ls.st.cursorBit = 0 := of_decide_eq_true hcb'
+    rcases mem_bind_split (mem_modD_bind h1) with ⟨err, ls1, hrun, h2⟩ | ⟨n, ls1, hrun, h2⟩
+    · exact (ihc.of_error hrun h2).imp id fun h => h.lift rfl rfl fun dr bl hr =>
+        .dynCount f off cbp cbit cdop item ls.st dr bl hcb hr
+    · obtain ⟨hx, hp1, hm1⟩ := subDop f cdop hrun
+      have hfirst : ∀ e ∈ ls1.log, e ∈ ls.log ∨ SiteReq (f + 1) (.dop (.dynLenField off cbp cbit cdop item)) ls e := fun e he =>
+        (ihc.of_ok hrun he).imp id fun h => h.lift rfl rfl fun dr bl hr => .dynCount f off cbp cbit cdop item ls.st dr bl hcb hr
+      rcases n with ⟨i | _ | _ | _⟩ | _ | _ | _ | _ | _ | _ | _
+      case atom.int =>
+        by_cases hneg : i < 0
+        · have h3 : e ∈ ls1.log := by
+            simp only [hneg, if_true] at h2
+            exact h2
+          exact hfirst e h3
+        · simp only [hneg, if_false] at h2
+          have h2' := mem_modD_bind (mem_pure_bind h2)
+          have h3 := mem_bind_nolog (m := decodeNItemsL item f i.toNat) (fun _ => by nolog') h2'
+          rcases ihn i.toNat _ e h3 with h | h
+          · exact hfirst e h
+          · exact .inr (h.lift hp1 hm1 fun dr bl hr => .dynItems f off cbp cbit cdop item ls.st ls1.st dr i bl hcb hx hneg hr)
+      all_goals exact hfirst e h2
+  · exact .inl h1
+
+theorem cov_dop_mux (f : Nat) (bp swBp : Nat) (swBit : Option Nat) (swDop : Dop) (cs : List MuxCaseD) (dflt : Option (String × Option Dop))
+    (ihp : ∀ p, Cov f (.param p) (decodeParamL f p)) :
+    Cov (f + 1) (.dop (.mux bp swBp swBit swDop cs dflt)) (decodeDopL (f + 1) (.mux bp swBp swBit swDop cs dflt)) := by
+  intro ls e he
+  unfold decodeDopL at he
+  rcases mem_bind_split (mem_modD_bind (mem_getD_bind he)) with ⟨err, ls1, hrun, h2⟩ | ⟨kv, ls1, hrun, h2⟩
+  · exact ((ihp _).of_error hrun h2).imp id fun h => h.lift rfl rfl fun dr bl hr =>
+      .muxKey f bp swBp swBit swDop cs dflt ls.st dr bl hr
+  · obtain ⟨hx, hp1, hm1⟩ := subParam f _ hrun
+    have hfirst : ∀ e ∈ ls1.log, e ∈ ls.log ∨ SiteReq (f + 1) (.dop (.mux bp swBp swBit swDop cs dflt)) ls e := fun e he =>
+      ((ihp _).of_ok hrun he).imp id fun h => h.lift rfl rfl fun dr bl hr => .muxKey f bp swBp swBit swDop cs dflt ls.st dr bl hr
+    -- the content of the selected case, decoded as a VALUE parameter at the multiplexer's BYTE-POSITION
+    have hcase : ∀ (key : Int) (name : String) (cd : Dop), kv = .atom (.int key) →
+        ((∃ c, caseOfKey key cs = some c ∧ c.name = name ∧ c.struct = some cd) ∨ (caseOfKey key cs = none ∧ dflt = some (name, some cd))) →
+        ∀ k : PVal → LogM PVal, (∀ a, NoLog (k a)) →
+        e ∈ resLog ((decodeParamL f (.mk "" (some bp) none (.value cd none)) >>= k)
+          { ls1 with st := { ls1.st with cursorByte := ls.st.cursorByte + bp } } true) →
+        e ∈ ls.log ∨ SiteReq (f + 1) (.dop (.mux bp swBp swBit swDop cs dflt)) ls e := by
+      intro key name cd hkv hsel k hk h3
+      subst hkv
+      rcases ihp _ _ e (mem_bind_nolog hk h3) with h | h
+      · exact hfirst e h
+      · exact .inr (h.lift hp1 hm1 fun dr bl hr =>
+          .muxCase f bp swBp swBit swDop cs dflt ls.st ls1.st dr key name cd bl hx hsel hr)
+    rcases kv with ⟨key | _ | _ | _⟩ | _ | _ | _ | _ | _ | _ | _
+    case atom.int =>
+      have h3 := mem_modD_bind h2
+      cases hk : caseOfKey key cs with
+      | some c =>
+        obtain ⟨cn, lo, up, cst⟩ := c
+        simp only [hk, MuxCaseD.name, MuxCaseD.struct] at h3
+        cases cst with
+        | some cd => exact hcase key cn cd rfl (.inl ⟨_, hk, rfl, rfl⟩) _ (fun _ => by nolog') h3
+        | none => exact hfirst e h3
+      | none =>
+        simp only [hk] at h3
+        rcases dflt with _ | ⟨dn, _ | cd⟩
+        · exact hfirst e h3
+        · exact hfirst e h3
+        · exact hcase key dn cd rfl (.inr ⟨hk, rfl⟩) _ (fun _ => by nolog') h3
+    all_goals exact hfirst e h2
 
 end OdxVerif.Codec
